@@ -349,3 +349,18 @@ theorem gloopEv_nonpos (a : List α) (x : α) (rest : List α) (h : Int) (hh : h
   simp only [Option.toList_some, List.map_cons, List.map_nil, List.nil_append, List.append_nil, Nat.zero_add]
   rw [pushAll_eq _ _ _ (by simp)]
   simp
+
+theorem bloopMutFails_length (size hop : Nat) (ops : Nat → List (DqOp α)) :
+    ∀ (xs : List α) (s : BState α) (k : Nat),
+      (bloopMutFails size hop ops s k xs).length =
+        (bloopMut size hop (fun k => applyOps size (ops k)) s k xs).1.length := by
+  intro xs
+  induction xs with
+  | nil => intro s k; simp [bloopMutFails, bloopMut]
+  | cons x xs ih =>
+    intro s k
+    cases hr : (bstep size hop s x).2 with
+    | none => simp only [bloopMutFails, bloopMut, hr, ih]
+    | some b => simp only [bloopMutFails, bloopMut, hr, ih, List.length_cons]
+
+end ALV.C08
